@@ -251,7 +251,7 @@ def prune_spec(prop):
     def decreases(it, env, ctx):
         return ctx["dq"].hi - ctx["dq"].lo
 
-    return LoopSpec(inv, setup=setup, decreases=decreases, prop=prop, modifies=lambda it, env, ctx: [(ctx['dq'], None)])
+    return LoopSpec(inv, setup=setup, decreases=decreases, prop=None, modifies=lambda it, env, ctx: [(ctx['dq'], None)])
 
 
 def install(it, prop):
@@ -265,7 +265,7 @@ def install(it, prop):
 def exit_common(it, wld, fn, prop):
     now = it.path.ghost["now"]
     for n, f in wld.inv(now):
-        it.path.oblige(f"{fn}/ensures/inv/{n}", f, prop=prop)
+        it.path.oblige(f"{fn}/ensures/inv/{n}", f, prop=None)  # the invariant carries every breaker property
     locks.exit_obligations(it, wld.obj, wld.monitor, fn)
 
 
